@@ -732,7 +732,10 @@ def next_op(rng: Rng, w: "World", case: dict, W: dict, total: int) -> list:
         # a re-install succeeds only while there is no live database.db: often delete it first
         if w.db.db_file is not None and rng.chance(1, 2):
             return [rng.choice(["fdel", "fdel", "fodel"])]
-        return ["svcin"] if rng.chance(1, 4) else ["svcin", rng.choice(pws), rng.chance(3, 4)]
+        absent = w.srv.software_manager.software.get("database-service") is None
+        if not absent and rng.chance(1, 6):
+            return ["adm", "svcun"]     # a bare install goes through only while the service is uninstalled
+        return ["svcin"] if rng.chance(3, 4 if absent else 16) else ["svcin", rng.choice(pws), rng.chance(3, 4)]
     if k == "co":
         if "database-client" not in w.srv.software_manager.software and not wild:
             return ["adm", "coin"]
